@@ -240,6 +240,13 @@ func spaceAfterToken(subject, before, after *Token) bool {
 		return false
 
 	case subject.Type == hclsyntax.TokenDot || after.Type == hclsyntax.TokenDot:
+		if subject.Type == hclsyntax.TokenDot && before.Type == hclsyntax.TokenNumberLit && after.Type == hclsyntax.TokenNumberLit {
+			// A dot between two number tokens, as in the (unusual) legacy
+			// index sequence foo.0 .1, must keep a space on one side or
+			// else "0", "." and "1" would be read back as the single
+			// number token "0.1".
+			return true
+		}
 		// Don't use spaces around attribute access dots
 		return false
 
